@@ -88,7 +88,7 @@ SV_NAMES = {'std::basic_string_view', 'std::string_view', 'basic_string_view'}
 VEC_NAMES = {'std::vector', 'vector'}
 OPT_NAMES = {'std::optional', 'optional'}
 SP_NAMES = {'std::shared_ptr', 'std::weak_ptr', 'std::unique_ptr', 'shared_ptr', 'weak_ptr', 'unique_ptr',
-            'std::__shared_ptr', 'std::__weak_ptr', 'std::reference_wrapper'}
+            'std::__shared_ptr', 'std::__weak_ptr', 'std::reference_wrapper', 'std::__shared_ptr_access'}
 IL_NAMES = {'std::initializer_list', 'initializer_list'}
 ITER_NAMES = {'__gnu_cxx::__normal_iterator', '__normal_iterator'}
 REVITER_NAMES = {'std::reverse_iterator', 'reverse_iterator'}
@@ -219,7 +219,7 @@ class Translator:
             t = node.get('type', {})
             target = t.get('desugaredQualType') or t.get('qualType')
             did = self._find_decl_ref(node)
-            if did is not None and did in self.qname_of:
+            if did is not None and did in self.qname_of and '__unnamed_' in self.qname_of[did]:
                 target = self.qname_of[did]       # typedef of an unnamed struct: clang prints the typedef name for it
             self.aliases[qprefix + '::' + node['name']] = target
         if kind in ('FunctionDecl', 'CXXMethodDecl', 'CXXConstructorDecl', 'CXXDestructorDecl', 'CXXConversionDecl'):
@@ -359,6 +359,15 @@ class Translator:
         if t.kind == 'func': return 'func'
         if t.kind == 'lit': return 'lit'
         n = t.name
+        m = re.match(r"^std::vector<(.+)>::(const_)?(reverse_)?iterator$", n)
+        if m and not t.args:
+            # member typedefs of std::vector that clang left sugared
+            elem = ('const ' if m.group(2) else '') + m.group(1) + ' *'
+            inner = '__gnu_cxx::__normal_iterator<%s, std::vector<%s>>' % (elem, m.group(1))
+            full = 'std::reverse_iterator<%s>' % inner if m.group(3) else inner
+            nt = self.tparse(full)
+            t.name = nt.name; t.args = nt.args
+            return self.category(t)
         if n in BUILTIN_C: return 'scalar'
         if n in STRING_NAMES: return 'str'
         if n in SV_NAMES: return 'sv'
@@ -384,8 +393,9 @@ class Translator:
         if a is not None:
             ta = self.tparse(a)
             cat = self.category(ta)
-            if cat in ('record', 'enum') and ta.kind == 'named':
-                t.name = ta.name
+            # canonicalise: the alias node becomes its target (keeps const)
+            t.kind = ta.kind; t.name = ta.name; t.args = ta.args; t.to = ta.to; t.n = ta.n; t.params = ta.params
+            t.const = t.const or ta.const
             return cat
         if n in self.opts.get('opaque_types', ()) or n in ('std::filesystem::path', 'std::filesystem::__cxx11::path'): return 'opaque'
         return 'unknown'
